@@ -1,8 +1,164 @@
 import PyresampleModel.Model.C12
+import PyresampleModel.Proofs.Num
 
 /-
-  C12 — property theorems (stub: none yet).
+  C12 — property theorems: memo never stale under any history; digest input representation-free
+  and injective; equality reflexive and symmetric.
 -/
 namespace PyresampleModel.C12
+
+/-! ### memoised hash -/
+
+def MemoOk (g : Geo) : Prop := g.memo = none ∨ g.memo = some g.rows
+
+theorem step_memo (g : Geo) (op : Op) (h : MemoOk g) : MemoOk (step g op).1 := by
+  cases op with
+  | hash =>
+    rcases h with h | h
+    · right; simp [step, Geo.hashVal, h]
+    · right; simp [step, Geo.hashVal, h]
+  | append o => left; rfl
+  | slice s => left; rfl
+  | copy => left; rfl
+
+/-- the memo is never stale: in every state reachable through any sequence of public operations
+it is either empty or the digest input of the *current* coordinates -/
+theorem memo_inv (ops : List Op) : ∀ (g : Geo), MemoOk g → MemoOk (run g ops) := by
+  induction ops with
+  | nil => intro g h; exact h
+  | cons op ops ih => intro g h; exact ih _ (step_memo g op h)
+
+/-- **hash after any history**: whatever was done to a coordinate definition before — hashing,
+appending, slicing, copying, in any order — `hash()` returns the digest of the coordinates it has now -/
+theorem hash_fresh_after_any_history (rows : List (List Rat)) (ops : List Op) :
+    (step (run ⟨rows, none⟩ ops) Op.hash).2 = some (run ⟨rows, none⟩ ops).rows := by
+  have h := memo_inv ops ⟨rows, none⟩ (Or.inl rfl)
+  rcases h with h | h <;> simp [step, Geo.hashVal, h]
+
+/-- the pre-fix `append` kept the memo: hash, append, hash returns the digest of the OLD coordinates -/
+theorem old_append_stale :
+    ∃ (rows o : List (List Rat)),
+      (stepOld (runOld ⟨rows, none⟩ [Op.hash, Op.append o]) Op.hash).2 ≠
+        some (runOld ⟨rows, none⟩ [Op.hash, Op.append o]).rows :=
+  ⟨[[1]], [[2]], by decide⟩
+
+/-! ### digest of an area -/
+
+/-- **representation-free**: numerically identical extents, in any spelling (ints, float64,
+float32), with the same CRS text and shape give the same digest input -/
+theorem equal_numbers_equal_digest (a b : AreaSpec) (hw : a.wkt = b.wkt) (hh : a.height = b.height)
+    (hwd : a.width = b.width) (hv : a.extent.map Num.val = b.extent.map Num.val) :
+    serializeArea a = serializeArea b := by
+  simp only [serializeArea, f64Items, hw, hh, hwd, Ser.mk.injEq, true_and]
+  congr 1
+  have : ∀ (xs ys : List Num), xs.map Num.val = ys.map Num.val →
+      xs.map (fun x => Item.f64 x.val) = ys.map (fun x => Item.f64 x.val) := by
+    intro xs ys h
+    have := congrArg (List.map Item.f64) h
+    simp only [List.map_map] at this
+    exact this
+  exact this _ _ hv
+
+/-- before the fix the digest input depended on the spelling: (0, 0, 4000, 5000) vs (0., 0., 4000., 5000.) -/
+theorem old_spelling_dependent :
+    ∃ (a b : AreaSpec), a.wkt = b.wkt ∧ a.height = b.height ∧ a.width = b.width ∧
+      a.extent.map Num.val = b.extent.map Num.val ∧ serializeAreaOld a ≠ serializeAreaOld b :=
+  ⟨⟨[], 5, 4, [.int 0, .int 0, .int 4000, .int 5000]⟩, ⟨[], 5, 4, [.f64 0, .f64 0, .f64 4000, .f64 5000]⟩,
+    rfl, rfl, rfl, by decide +kernel, by decide +kernel⟩
+
+theorem aux_f64_inj : ∀ (xs ys : List Num), f64Items xs = f64Items ys → xs.map Num.val = ys.map Num.val := by
+  intro xs
+  induction xs with
+  | nil => intro ys h; cases ys <;> simp_all [f64Items]
+  | cons x xs ih =>
+    intro ys h
+    cases ys with
+    | nil => simp [f64Items] at h
+    | cons y ys =>
+      simp only [f64Items, List.map_cons, List.cons.injEq, Item.f64.injEq] at h
+      simp only [List.map_cons, List.cons.injEq]
+      exact ⟨h.1, ih ys h.2⟩
+
+/-- an encoding of items into bytes in which every item takes 8 bytes and different items differ -/
+structure Enc where
+  bytes : Item → List Nat
+  len   : ∀ it, (bytes it).length = 8
+  inj   : ∀ a b, bytes a = bytes b → a = b
+
+def flatten (e : Enc) (s : Ser) : List Nat := s.wkt ++ s.items.flatMap e.bytes
+
+theorem aux_flat_len (e : Enc) (xs : List Item) : (xs.flatMap e.bytes).length = 8 * xs.length := by
+  induction xs with
+  | nil => rfl
+  | cons x xs ih => simp [List.flatMap_cons, e.len, ih]; omega
+
+theorem aux_flat_inj (e : Enc) : ∀ (xs ys : List Item), xs.length = ys.length →
+    xs.flatMap e.bytes = ys.flatMap e.bytes → xs = ys := by
+  intro xs
+  induction xs with
+  | nil => intro ys hl _; cases ys <;> simp_all
+  | cons x xs ih =>
+    intro ys hl h
+    cases ys with
+    | nil => simp at hl
+    | cons y ys =>
+      simp only [List.flatMap_cons] at h
+      have := List.append_inj h (by rw [e.len, e.len])
+      rw [e.inj _ _ this.1, ih ys (by simpa using hl) this.2]
+
+/-- **different geometry ⇒ different digest input**: the byte string fed to the digest — WKT bytes
+followed by the fixed-width shape and extent — determines the CRS text, the shape and the extent
+values (so, the digest being collision-free, areas differing in any of them get different digests) -/
+theorem serialize_injective (e : Enc) (a b : AreaSpec) (hl : a.extent.length = b.extent.length)
+    (h : flatten e (serializeArea a) = flatten e (serializeArea b)) :
+    a.wkt = b.wkt ∧ a.height = b.height ∧ a.width = b.width ∧ a.extent.map Num.val = b.extent.map Num.val := by
+  simp only [flatten, serializeArea] at h
+  have hlen : ([Item.i64 a.height, Item.i64 a.width] ++ f64Items a.extent).length =
+      ([Item.i64 b.height, Item.i64 b.width] ++ f64Items b.extent).length := by
+    simp [f64Items, hl]
+  have := List.append_inj' h (by rw [aux_flat_len, aux_flat_len, hlen])
+  have hitems := aux_flat_inj e _ _ hlen this.2
+  simp only [List.cons_append, List.nil_append, List.cons.injEq, Item.i64.injEq] at hitems
+  exact ⟨this.1, by exact_mod_cast hitems.1, by exact_mod_cast hitems.2.1, aux_f64_inj _ _ hitems.2.2⟩
+
+/-! ### equality -/
+
+theorem aux_allclose_refl (rtol atol : Rat) (hr : 0 ≤ rtol) (ha : 0 ≤ atol) (xs : List Rat) :
+    allclose rtol atol xs xs = true := by
+  simp only [allclose, beq_self_eq_true, Bool.true_and, List.all_eq_true, decide_eq_true_eq]
+  intro p hp
+  have : p.1 = p.2 := by
+    have := List.of_mem_zip hp
+    induction xs with
+    | nil => simp at hp
+    | cons x xs ih =>
+      simp only [List.zip_cons_cons, List.mem_cons] at hp
+      rcases hp with rfl | hp
+      · rfl
+      · exact ih hp (List.of_mem_zip hp)
+  rw [this, sub_self]
+  have h0 : absQ 0 = 0 := by simp [absQ]
+  have : 0 ≤ absQ p.2 := by unfold absQ; split <;> linarith
+  rw [h0]; positivity
+
+/-- equality is reflexive -/
+theorem areaEq_refl (a : AreaSpec) : areaEq true a a = true := by
+  have h := aux_allclose_refl (1/100000) (1/100000000) (by norm_num) (by norm_num) (a.extent.map Num.val)
+  simp only [areaEq, h, beq_self_eq_true, Bool.and_self]
+
+/-- equality is symmetric (given that CRS equality is) -/
+theorem areaEq_symm (c : Bool) (a b : AreaSpec) : areaEq c a b = areaEq c b a := by
+  simp only [areaEq]
+  rw [Bool.and_comm (allclose _ _ (a.extent.map Num.val) _)]
+  have h1 : (a.height == b.height) = (b.height == a.height) := by
+    rw [Bool.eq_iff_iff]; simp only [beq_iff_eq]; exact eq_comm
+  have h2 : (a.width == b.width) = (b.width == a.width) := by
+    rw [Bool.eq_iff_iff]; simp only [beq_iff_eq]; exact eq_comm
+  rw [h1, h2]
+
+/-- the defect repaired by the `fix:` commit: one-directional `np.allclose` is not symmetric -/
+theorem areaEqOld_not_symm : ∃ (a b : AreaSpec), areaEqOld true a b = true ∧ areaEqOld true b a = false :=
+  ⟨⟨[], 5, 4, [.f64 0, .f64 0, .f64 100000, .f64 5000]⟩,
+   ⟨[], 5, 4, [.f64 0, .f64 0, .f64 (1000010000001 / 10000000), .f64 5000]⟩, by decide +kernel, by decide +kernel⟩
 
 end PyresampleModel.C12
